@@ -353,10 +353,15 @@ fn judge(run: &Run, env: &Env, c: &Case) -> CaseResult {
                         format!("claim v1 definition with resources: after {hop} archive hop(s) the restored builder cannot be archived again: {e}"),
                     ));
                 }
-                if hop > 0 && matches!(e, c2pa::Error::ResourceNotFound(_)) && format!("{e}").contains("c2pa.assertions/c2pa.icon") {
+                let msg = format!("{e}");
+                if hop > 0
+                    && matches!(e, c2pa::Error::ResourceNotFound(_))
+                    && (msg.contains("c2pa.assertions/c2pa.icon") || msg.contains("c2pa.assertions/c2pa.thumbnail.claim"))
+                    && gd.expect.ingredients.is_empty()
+                {
                     return Err(Fail::new(
-                        "C22:generator-icon-lost-after-restore",
-                        format!("definition with a claim generator icon resource: after {hop} archive hop(s) the restored builder cannot be archived again: {e}"),
+                        "C22:manifest-resources-unresolvable-without-ingredient",
+                        format!("definition with a claim thumbnail / generator icon resource and no ingredient: after {hop} archive hop(s) the restored builder cannot be archived again: {e}"),
                     ));
                 }
                 return Err(Fail::new(
@@ -388,10 +393,13 @@ fn judge(run: &Run, env: &Env, c: &Case) -> CaseResult {
                     format!("definition with redactions {:?}: the original builder signs, the builder restored after {hops} archive hop(s) fails to sign: {}", gd.expect.redactions, f.what),
                 ));
             }
-            if f.signature == "sign:ResourceNotFound" && f.what.contains("c2pa.assertions/c2pa.icon") {
+            if f.signature == "sign:ResourceNotFound"
+                && (f.what.contains("c2pa.assertions/c2pa.icon") || f.what.contains("c2pa.assertions/c2pa.thumbnail.claim"))
+                && gd.expect.ingredients.is_empty()
+            {
                 return Err(Fail::new(
-                    "C22:generator-icon-lost-after-restore",
-                    format!("definition with a claim generator icon resource: the original builder signs, the builder restored after {hops} archive hop(s) fails to sign: {}", f.what),
+                    "C22:manifest-resources-unresolvable-without-ingredient",
+                    format!("definition with a claim thumbnail / generator icon resource and no ingredient: the original builder signs, the builder restored after {hops} archive hop(s) fails to sign: {}", f.what),
                 ));
             }
             if f.signature == "sign:ResourceNotFound" && f.what.contains("c2pa.databoxes") && gd.expect.claim_version == 1 {
@@ -770,8 +778,8 @@ fn main() {
             }
             // keep the triggers of already recognised defects rare so that they do not mask the rest:
             // generator icon (restored builder cannot sign), redactions (ditto), icon + sha384/512 (C03 finding)
-            if spec.resources == 2 && spec.seed % 4 != 0 {
-                spec.resources = 1;
+            if spec.n_ingredients == 0 && (spec.resources == 2 || spec.thumb == 1) && spec.seed % 4 != 0 {
+                spec.n_ingredients = 1;
             }
             if spec.redact && spec.seed % 3 != 0 {
                 spec.redact = false;
